@@ -65,7 +65,7 @@ def r1_field_packing(ctx: Ctx) -> None:
         for j, (g, w) in enumerate(zip(got, want)):
             ok = (g.source, g.bit) == (w.source, w.bit) and not g.signed and not g.checked
             ctx.check(ok, f"{construct}:byte{j}", f"emits {g}; truncation to the field (two's complement for negatives), little-endian, needs {w} masked")
-    ctx.floor("data_classes", 4)
+    ctx.floor("data_classes", 2)
 
 
 def r2_directive_chain(ctx: Ctx) -> None:
@@ -79,11 +79,24 @@ def r2_directive_chain(ctx: Ctx) -> None:
         raise AnalysisError("parse_keyword: expected one if-chain")
     arms, _ = if_chain(chain[0])
     arm_of: dict[str, list[ast.stmt]] = {}
+    member_arms: dict[str, list[ast.stmt]] = {}
     for test, body in arms:
         t = eq_const_test(test)
-        if t is None or not t[0].endswith(".value"):
-            raise AnalysisError(f"parse_keyword: arm test `{unparse(test)}` not modelled")
-        arm_of[t[1]] = body
+        if t is not None and t[0].endswith(".value"):
+            arm_of[t[1]] = body
+            continue
+        if isinstance(test, ast.Compare) and len(test.ops) == 1 and isinstance(test.ops[0], ast.In) and unparse(test.left).endswith(".value"):
+            try:
+                from ..const import ConstEval
+                vals = ConstEval(ctx.repo, pk.module).ev(test.comparators[0])
+            except AnalysisError:
+                vals = None
+            if isinstance(vals, (tuple, list, set, frozenset)) and all(isinstance(v, str) for v in vals):
+                for v in vals:
+                    arm_of[v] = body
+                    member_arms[v] = body
+                continue
+        raise AnalysisError(f"parse_keyword: arm test `{unparse(test)}` not modelled")
     gens = _data_generators(ctx)
     terms = node_class_terms(ctx.repo)
     for kind in list(WIDTHS) + ["ascii", "incbin"]:
@@ -99,6 +112,8 @@ def r2_directive_chain(ctx: Ctx) -> None:
         ctor = call_name(ret.value)
         if kind in WIDTHS:
             k2 = const_str(ret.value.args[0]) if ret.value.args else None
+            if k2 is None and kind in member_arms and ret.value.args and unparse(ret.value.args[0]).endswith(".value"):
+                k2 = kind  # DataNode(keyword.value, ...) inside a `keyword.value in (...)` arm keeps the directive's own kind
             ctx.check(ctor == "DataNode" and k2 == kind, f".{kind}:ast-kind", f"parsed into DataNode({k2!r}); must keep its own kind so the {WIDTHS[kind]}-byte generator runs")
             src = [s for s in body if isinstance(s, ast.Assign) and call_name(s.value) == "parse_expression_list_inner"]
             ctx.check(len(src) == 1 and unparse(ret.value.args[1]) == unparse(src[0].targets[0]), f".{kind}:operands", "the parsed expression list is the node's data")
